@@ -67,7 +67,7 @@ def gen_world(r, tier):
     # world-level switches: readspec only succeeds when all plates agree on the
     # presence of photoPlate / spZbest files; mixing them is a (rare) natural failure
     masks = 'u8' if r.random() < 0.85 else r.choice(['i4', 'i8'])
-    photoplate = r.random() < 0.85
+    photoplate = r.random() < 0.7
     zbest = r.random() < 0.5
     mixed = r.random() < 0.08
     damaged = r.randrange(nplates) if r.random() < 0.15 else -1
